@@ -517,6 +517,14 @@ def check_restore_matrix(case):
     amp = 1.0 / (smin * smin + lam)
     tn = smax * smax + lam
     condT = tn * amp
+    # the same image in other memory layouts (Fortran order; a transposed / rotated view as np.rot90 or a swapaxes of a
+    # stored W x H image gives it): the restoration is a function of the values
+    for lname, Bl in (("F-ordered image", np.asfortranarray(B)),
+                      ("transposed view", np.ascontiguousarray(np.swapaxes(B, 0, 1)).swapaxes(0, 1))):
+        okl, Xl = out.call(f"{site}({lname})", L.qslst.qslst_restore_matrix, Bl, A, lam)
+        if okl and img_ok(f"{site}({lname})", out, Xl, B.shape):
+            out.le(f"{site}({lname}):same restoration as for the C-contiguous image", fro(np.asarray(Xl) - X),
+                   (1e-9 + 1e3 * N * U_ * condT) * fro(X) + 1e-300, "the result depends on the memory layout of B")
     bn, xn = fro(B), fro(X)
     en = fro(A.T @ vecs(B))
     res = normal_eq_residual(A, X, B, lam)
